@@ -35,6 +35,7 @@ struct ActorHandle {
 
 pub struct Opts {
     pub cancelable: bool,
+    pub ready: bool,
     pub ring: usize,
     pub queue: usize,
     pub stack: usize,
@@ -468,10 +469,12 @@ pub fn run(input: &str, output: &str, opts: Opts) -> std::io::Result<i32> {
     verif::set_queue_capacity(opts.queue);
     verif::set_stack_capacity(opts.stack);
     rt::install_hooks();
-    fastrace::set_reporter(
-        rt::CapturingReporter,
-        fastrace::collector::Config::default().cancelable(opts.cancelable),
-    );
+    if opts.ready {
+        fastrace::set_reporter(
+            rt::CapturingReporter,
+            fastrace::collector::Config::default().cancelable(opts.cancelable),
+        );
+    }
     std::panic::set_hook(Box::new(|_| {}));
 
     let (tx, rx) = mpsc::channel::<Stop>();
@@ -511,7 +514,7 @@ pub fn run(input: &str, output: &str, opts: Opts) -> std::io::Result<i32> {
         s.acc.lock().unwrap().clear();
         let foreign: Vec<usize> = verif::collector_stats().active.iter().map(|a| rt::cid_out(a.collect_id)).collect();
         let eff = |v: usize, d: usize| if v == 0 { d } else { v };
-        emit(json!({"ev":"reset","run":id,"cfg":{"cancelable":opts.cancelable,"enabled":true,"ready":true,
+        emit(json!({"ev":"reset","run":id,"cfg":{"cancelable":opts.cancelable,"enabled":true,"ready":opts.ready,
             "queue":eff(opts.queue, 10240),"stack":eff(opts.stack, 4096),"ring":eff(opts.ring, 10240),"foreign":foreign}}));
         s.steer.store(true, Ordering::SeqCst);
 
